@@ -504,6 +504,25 @@ def r037(an, rep):
     g, wl = enc
     flag = wl.test.id
     rep.add("R03.7", f"{g.qual}::re-layout is iterated until no jump changes size", True, loc(g.module, wl), f"`while {flag}:` - the loop runs until a whole pass leaves every jump's size unchanged", nontrivial=False)
+    # the operands the layout was computed for are the operands that are emitted: nothing changes an operand between the re-layout loop and the assembly
+    opmaps = {n.value.id for n in ast.walk(wl) if isinstance(n, ast.Subscript) and isinstance(n.value, ast.Name) and isinstance(n.ctx, ast.Store)}
+    body = g.node.body
+    after = body[body.index(wl) + 1:]
+    late = []
+    for st in after:
+        for n in ast.walk(st):
+            tgt = None
+            if isinstance(n, ast.AugAssign) and isinstance(n.target, ast.Subscript) and isinstance(n.target.value, ast.Name) and n.target.value.id in opmaps:
+                tgt = n
+            if isinstance(n, ast.Assign) and any(isinstance(t, ast.Subscript) and isinstance(t.value, ast.Name) and t.value.id in opmaps for t in n.targets):
+                tgt = n
+            if tgt is not None:
+                late.append(tgt)
+    rep.add("R03.7", f"{g.qual}::no operand changes after the layout is fixed", not late, loc(g.module, late[0]) if late else loc(g.module, wl),
+            "operands are final when the re-layout loop starts" if not late else
+            f"`{norm_src(late[0])}` changes an operand AFTER the loop that computed the size of every instruction and the offset of every block: an operand that grows across a "
+            f"width boundary (a free variable in a function with 256 or more cell variables: index + len(cellvars)) is emitted with more code units than were laid out, and "
+            f"every jump over it lands {2} bytes short")
     # placeholder for jumps sizes to one unit
     disp = None
     for h in an.closure("to_code"):
